@@ -15,7 +15,7 @@ Definition V := Z.
 Inductive err :=
 | EUnsupportedForm (f:name)      (* NotImplementedError, solver.py:163-164 *)
 | EAssertLine (d:name)           (* assert ud.dependency in self._field_map, solver.py:223 *)
-| ERecursion (i:name)            (* unbounded _attempt_field recursion, solver.py:230-232 *)
+| ERecursion (i:name)            (* input not defined by its form: RuntimeError, solver.py:232-234 *)
 | EInvalidInput (i:name)         (* inputs.InvalidInput escapes, inputs.py:209-210 *)
 | EKeyField (f:name)             (* self._field_map[field_name], solver.py:246 *)
 | EBody (code:Z)                 (* any exception raised by a line body (TypeError, AssertionError, ...) *)
@@ -198,7 +198,9 @@ Fixpoint attempt_field (fuel:nat) (f:name) (s:state) : state + err :=
             | inr e => inr e
             | inl s1 =>
                 if mem d (fmap s1)
-                then let s2 := add_unattempted [d] s1 in
+                then if mem d (solving s1) then inl s1      (* already scheduled by add_form: required line *)
+                     else
+                     let s2 := add_unattempted [d] s1 in
                      inl (State (inp s2) (specs s2) (forms s2) (fmap s2) (vals s2) (unatt s2) (unimpl s2)
                                 (add_names [d] (solving s2)) (fdep s2) (idep s2) (refused s2) (trace s2) (edges s2))
                 else inr (EAssertLine d)
